@@ -88,6 +88,61 @@ impl Default for Runtime {
     }
 }
 
+#[cfg(ae9rb_basic_lang_verif)]
+impl Runtime {
+    /// Read-only copy of the machine state for external monitors.
+    pub fn verif_probe(&self) -> verif::VerifProbe {
+        fn name(state: &State) -> &'static str {
+            match state {
+                State::Intro => "Intro",
+                State::Stopped => "Stopped",
+                State::Listing(_) => "Listing",
+                State::RuntimeError(_) => "RuntimeError",
+                State::Running => "Running",
+                State::Input => "Input",
+                State::InputRedo => "InputRedo",
+                State::InputRunning => "InputRunning",
+                State::Interrupt => "Interrupt",
+                State::Inkey => "Inkey",
+            }
+        }
+        let (vars, dims, types) = self.vars.verif_dump();
+        let (code_len, data_len, data_pos, direct_address) = self.program.verif_sizes();
+        let mut functions: Vec<(String, usize, usize)> = self
+            .functions
+            .iter()
+            .map(|(k, (arity, addr))| (k.to_string(), *arity, *addr))
+            .collect();
+        functions.sort();
+        verif::VerifProbe {
+            pc: self.pc,
+            entry_address: self.entry_address,
+            state: name(&self.state),
+            cont: name(&self.cont),
+            cont_pc: self.cont_pc,
+            dirty: self.dirty,
+            tron: self.tron,
+            print_col: self.print_col,
+            stack: (0..self.stack.len())
+                .filter_map(|i| self.stack.get(i).cloned())
+                .collect(),
+            vars,
+            dims,
+            types,
+            functions,
+            code_len,
+            data_len,
+            data_pos,
+            direct_address,
+            next_op: match self.program.get(self.pc) {
+                Some(op) => op.to_string(),
+                None => String::new(),
+            },
+            line_at_pc: self.program.line_number_for(self.pc),
+        }
+    }
+}
+
 impl Runtime {
     /// Enters a line of BASIC or INPUT.
     /// Returns true if good candidate for history.
@@ -333,6 +388,8 @@ impl Runtime {
             Err(error) => {
                 if let State::InputRunning = self.state {
                     loop {
+                        #[cfg(ae9rb_basic_lang_verif)]
+                        verif::tick("runtime::redo_unwind");
                         match self.stack.pop() {
                             Err(_) => break,
                             Ok(Val::Return(addr)) => {
@@ -755,6 +812,8 @@ impl Runtime {
 
     fn r#next(&mut self, next_name: Rc<str>) -> Result<()> {
         loop {
+            #[cfg(ae9rb_basic_lang_verif)]
+            verif::tick("runtime::next");
             let next = match self.stack.pop() {
                 Ok(Val::Next(addr)) => addr,
                 Ok(_) | Err(_) => return Err(error!(NextWithoutFor)),
@@ -848,6 +907,8 @@ impl Runtime {
         let mut ret_val: Option<Val> = None;
         let mut first = true;
         loop {
+            #[cfg(ae9rb_basic_lang_verif)]
+            verif::tick("runtime::return");
             match self.stack.pop() {
                 Ok(Val::Return(addr)) => {
                     if let Some(val) = ret_val {
